@@ -248,7 +248,7 @@ Fixpoint geval (n : nat) (e : exp) (f : frame) (st : St) {struct n} : res * St :
     | Rep plus sep omitsep e1 => rep_eval n' (geval n') plus e1 sep omitsep f st
     | Look false e1 =>
       match geval n' e1 (push f) st with
-      | (Ok r _, st1) => (Ok r f, st1)
+      | (Ok _ _, st1) => (Ok VNone f, st1)    (* the value is dropped: a lookahead contributes nothing to its sequence *)
       | (Fail _, st1) => (Fail (cutseen f), st1)
       | (Fatal x, st1) => (Fatal x, st1)
       end
